@@ -336,3 +336,25 @@ V("c18-add-early-exit", "C18", "fire", UT, "< no_edges and i < len(edges):", "< 
 V("c18-add-unseeded-shuffle", "C18", "fire", UT, "    rng.shuffle(edges)\n    # Check inputs", "    np.random.shuffle(edges)\n    # Check inputs", rule=None, what="shuffle from the global stream", accept_inconclusive=True)
 V("c18-silent-bin", "C18", "silent", UT, "    A = A.astype(bool).astype(int)\n    # Edges between non-adjacent nodes", "    A = (A != 0).astype(int)\n    # Edges between non-adjacent nodes", what="equivalent binarisation")
 V("c18-silent-guard", "C18", "silent", UT, "    if no_edges > can_add:", "    if can_add < no_edges:", what="flipped guard")
+
+# ------------------------------------------------------------------------------- C19
+V("c19-f4a-revert", "C19", "fire", SE, "self._data[k][:, i], n[k], random_state=rng\n", "self._data[k][:, i], n[k], random_state=random_state\n", rule="R4", what="revert fix F4a")
+V("c19-f4b-revert", "C19", "fire", SE, "        np.random.seed(random_state) if random_state is not None else None\n", "", rule="R1.global", what="revert fix F4b")
+V("c19-f4c-revert", "C19", "fire", SE, "            if len(n) != self.e:\n                raise ValueError(_N_TYPE_ERROR)\n", "", rule="CONTRACT.n-list-wrong-length", what="revert fix F4c")
+V("c19-reader-real-parents", "C19", "fire", SE, "new_data = pd.DataFrame(sample[:, sorted(parents)])", "new_data = pd.DataFrame(self._data[k][:n[k], sorted(parents)])", rule="SLOTS.reader", what="children generated from the *observed* parents")
+V("c19-reader-unsorted", "C19", "fire", SE, "new_data = pd.DataFrame(sample[:, sorted(parents)])", "new_data = pd.DataFrame(sample[:, list(parents)])", rule="SLOTS.reader", what="parent columns in set order")
+V("c19-reader-wrong-env", "C19", "fire", SE, "                    forest = self._random_forests[i, k]\n", "                    forest = self._random_forests[i, 0]\n", rule="SLOTS.reader", what="always the first environment's forest")
+V("c19-writer-wrong-slot", "C19", "fire", SE, "                    self._random_forests[i, k] = DRF\n", "                    self._random_forests[k, i] = DRF\n", rule="SLOTS.writer", what="forest stored transposed")
+V("c19-writer-response", "C19", "fire", SE, "Y = pd.DataFrame(self._data[k][:, i])", "Y = pd.DataFrame(self._data[k][:, 0])", rule="SLOTS.writer", what="fitted on the wrong response")
+V("c19-writer-all-envs", "C19", "fire", SE, "X = pd.DataFrame(self._data[k][:, sorted(parents)])", "X = pd.DataFrame(self._data[0][:, sorted(parents)])", rule="SLOTS.writer", what="regressors from environment 0")
+V("c19-bootstrap-wrong-column", "C19", "fire", SE, "                        self._data[k][:, i], n[k], random_state=rng", "                        self._data[k][:, 0], n[k], random_state=rng", rule="SLOTS.bootstrap", what="sources resampled from column 0")
+V("c19-natural-order", "C19", "fire", SE, "            for i in self._ordering:\n", "            for i in range(self.p):\n", rule="ORDER.nodes", what="children generated before their parents")
+V("c19-bootstrap-global", "C19", "fire", SE, "    idx = rng.choice(len(data), n, replace=True)", "    idx = np.random.choice(len(data), n, replace=True)", rule="R", what="bootstrap from the global stream")
+V("c19-bootstrap-sorted", "C19", "fire", SE, "    sample = data[idx]\n    return sample", "    sample = np.sort(data[idx], axis=0)\n    return sample", rule="BOOTSTRAP", what="bootstrap sample sorted: rows no longer observations")
+V("c19-truthy-seed", "C19", "fire", SE, "        np.random.seed(random_state) if random_state is not None else None\n", "        np.random.seed(random_state) if random_state else None\n", rule="R", what="seed 0 not honoured for the forests")
+V("c19-type-guard-dropped", "C19", "fire", SE, "        if not isinstance(graph, np.ndarray):\n            raise TypeError(_GRAPH_TYPE_ERROR)\n        elif graph.ndim != 2:", "        if graph.ndim != 2:", rule="CONTRACT.graph-not-ndarray", what="TypeError clause dropped")
+V("c19-width-guard-rows", "C19", "fire", SE, "                elif sample.shape[1] != graph.shape[1]:", "                elif sample.shape[0] != graph.shape[1]:", rule="CONTRACT.sample-width", what="compares rows with variables")
+V("c19-n-zero-allowed", "C19", "fire", SE, "        elif type(n) == int and n <= 0:", "        elif type(n) == int and n < 0:", rule="CONTRACT.n-not-positive", what="n = 0 accepted")
+V("c19-no-super-sample", "C19", "fire", SE, "        # Checks inputs\n        super().sample(n)\n", "", rule="CONTRACT.delegated-sample", what="n never validated")
+V("c19-silent-isinstance", "C19", "silent", SE, "        elif type(n) == int and n <= 0:", "        elif isinstance(n, int) and n <= 0:", what="isinstance for type ==")
+V("c19-silent-seed-if", "C19", "silent", SE, "        np.random.seed(random_state) if random_state is not None else None\n", "        if random_state is not None:\n            np.random.seed(random_state)\n", what="if statement")
